@@ -245,8 +245,9 @@ def _atoms_tag(e):
 
 
 # ----------------------------------------------------------------------------- (B) measured-value histories
-HEV = ["M1", "M2", "PREP", "USE", "SEG", "USEX"]
+HEV = ["M1", "M2", "PREP", "USE", "SEG", "USEX", "M0"]
 V1, V2 = 0.7, -0.4
+VAL = {"M1": V1, "M2": V2, "M0": 0.0}  # M0: the outcome is exactly zero - a measured value all the same
 
 
 def run_history(hist, res, mm=0):
@@ -271,9 +272,9 @@ def run_history(hist, res, mm=0):
             with warnings.catch_warnings():
                 warnings.simplefilter("ignore")
                 with prog.context as q:
-                    if ev in ("M1", "M2"):
-                        ops.MeasureHomodyne(0.0, select=V1 if ev == "M1" else V2) | q[mm]
-                        last = V1 if ev == "M1" else V2
+                    if ev in VAL:
+                        ops.MeasureHomodyne(0.0, select=VAL[ev]) | q[mm]
+                        last = VAL[ev]
                     elif ev == "PREP":
                         ops.Squeezed(0.2, 0.0) | q[mm]
                     elif ev == "USEX":
@@ -325,7 +326,7 @@ def _use_before_measure(hist):
     if "USEX" in hist:
         return True
     for ev in hist:
-        if ev in ("M1", "M2"):
+        if ev in VAL:
             seen = True
         if ev == "USE" and not seen:
             return True
